@@ -10,3 +10,7 @@ def run(ctx):
     scens = [gl.history(rnd, "n%d" % i, steps=rnd.randint(3, 9), with_construct=True, with_transform=True) for i in range(n)]
     gl.run_grid(ctx, [("nodal", scens)], gl.OBS_NODAL, "C01")
     ctx.assume("reproduction is judged by an observer at 1e-9 relative tolerance on integer token values; the spec decides when the property applies (local polynomial grids: all parents loaded)")
+
+
+def replay(ctx, path):
+    return gl.replay(ctx, path, "C01", gl.OBS_NODAL)
